@@ -79,13 +79,14 @@ fn main() {
   let mut lits: Vec<String> = Vec::new();
   let mut meta: Vec<Value> = Vec::new();
   let mut dist: BTreeMap<String, u64> = BTreeMap::new();
-  let mut bump = |dist: &mut BTreeMap<String, u64>, k: &str, n: u64| {
+  let bump = |dist: &mut BTreeMap<String, u64>, k: &str, n: u64| {
     *dist.entry(k.to_string()).or_insert(0) += n;
   };
   for wi in 0..args.n {
     let nseg = 1 + rng.below(4) as usize;
     let storage = if rng.chance(1, 2) { StorageType::InMemory } else { StorageType::Filesystem };
-    let mut w = World::build(&mut rng, nseg, 3, if thorough { 14 } else { 9 }, storage);
+    let max_docs = if rng.chance(1, 2) { 30 } else if thorough { 14 } else { 9 };
+    let mut w = World::build(&mut rng, nseg, 3, max_docs, storage);
     if rng.chance(1, 3) {
       let ids: Vec<u64> = (0..1 + rng.below(3)).map(|_| rng.below(w.next_id)).collect();
       w.delete(&ids);
@@ -103,13 +104,13 @@ fn main() {
           srcs.push(Src { name: name.clone(), hist: false, json: json!({"type":"terms","name":name,"field":f}) });
           bump(&mut dist, &format!("source_terms_{f}"), 1);
         } else {
-          let f = *rng.pick(&["n", "m", "x"][..]);
+          let f = *rng.pick(&["x", "y", "y", "x", "y", "x", "n"][..]); // i64 fields give no buckets (f64_values)
           let iv = *rng.pick(&[1.0, 2.0, 0.5, 0.1, 0.3, 3.0][..]);
           srcs.push(Src { name: name.clone(), hist: true, json: json!({"type":"histogram","name":name,"field":f,"interval":iv}) });
           bump(&mut dist, &format!("source_histogram_{f}"), 1);
         }
       }
-      let (query, _) = qx::gen_query(&mut rng);
+      let query = if rng.chance(1, 2) { json!({"type":"match_all"}) } else { qx::gen_query(&mut rng).0 };
       let mut base = json!({"query": query, "limit": 1});
       if let Some(f) = qx::gen_filter(&mut rng) {
         base["filter"] = f;
